@@ -4,7 +4,9 @@
    Finding classes: inside the type universe [Known_C18] = [Known_C17], i.e. [Known_ty] (CHOICE with a NULL
    alternative F18-2, CHOICE with a SEQUENCE OF alternative F18-4, SEQUENCE OF SEQUENCE OF F18-3, and SEQUENCE OF NULL
    F18-5 = constructor [K_list_null], witness [C18_refuted_list_of_null]) or a BitVec with excess bytes; at the
-   declaration level the SET numbering class F18-1 ([Known_set_order]). *)
+   declaration level the SET numbering class F18-1 ([Known_set_order]).
+   Repaired in /repo 4788e65 and no longer classes: extensible INTEGERs (declared uint64 / sint64) used to be written
+   in the 32-bit format of their root bounds ([C18_extensible_int_fixed]). *)
 From A1 Require Import Proto.Wire Proto.Rw Proto.Schema Proto.Proofs Proto.SchemaProofs Proto.RwLemmas
   Proto.RoundtripProofs Proto.DecodeProofs.
 Local Open Scope N_scope.
@@ -124,6 +126,31 @@ Proof.
   exists [(1, PRepeated (PScalar SBytes)); (2, PScalar SUInt32)]. vm_compute. repeat split; reflexivity.
 Qed.
 
+(* repaired in /repo 4788e65: an extensible INTEGER is declared uint64 (u64) / sint64 (i64) and now written in exactly
+   that format, so for every KExt kind the compiler produces ([wf_kind]: u64 iff MIN is not negative) and every value of
+   its 64-bit type the varint decodes under the declared type to the value.  (It used to be written by
+   write_tagged_sint32 / uint32: 2^30 in INTEGER (-2147483648..2147483647,...) decoded to 9223372035781033984.) *)
+Theorem C18_extensible_int_fixed :
+  (forall sg mn mx z, wf_kind (KExt sg mn mx) = true -> in_kind (KExt sg mn mx) z = true ->
+     exists x, x < two64 /\ number_bytes (KExt sg mn mx) z = write_varint x /\
+               num_value (scalar_of_kind (KExt sg mn mx)) x = z) /\
+  let t := TSeq [(false, TInt (KExt true (Some (-2147483648)%Z) (Some 2147483647%Z)));
+                 (false, TInt (KExt false (Some 0%Z) (Some 255%Z)))] in
+  let v := VSeq [VInt 1073741824; VInt 4294967296] in
+  wf_pty t /\ wf_pval t v /\ ~ Known_C18 t v /\
+  schema_of t = Some [(1, PScalar SSInt64); (2, PScalar SUInt64)] /\
+  pwrite_vec dev_mode t v = Ok [8; 128; 128; 128; 128; 8; 16; 128; 128; 128; 128; 16] /\
+  pb_decode [(1, PScalar SSInt64); (2, PScalar SUInt64)] [8; 128; 128; 128; 128; 8; 16; 128; 128; 128; 128; 16]
+  = Some [BNum 1073741824; BNum 4294967296] /\
+  pb_of_val t v = Some [BNum 1073741824; BNum 4294967296].
+Proof.
+  split.
+  - intros sg mn mx z Hw Hin. apply int_wire; assumption.
+  - cbv zeta. split; [split; reflexivity|]. split; [reflexivity|]. split.
+    + intros [K|E]; [apply known_not_good in K; vm_compute in K; discriminate K|vm_compute in E; discriminate E].
+    + vm_compute. repeat split; reflexivity.
+Qed.
+
 Example C18_decodes_nonvacuous :
   let t := TSeq [(false, TBool); (true, TStr);
      (false, TSeqOf (TSeq [(false, TInt KU16); (true, TStr)]));
@@ -147,6 +174,7 @@ Print Assumptions C18_numbers_match.
 Print Assumptions C18_decodes_under_schema_partial.
 Print Assumptions C18_decodes_under_schema.
 Print Assumptions C18_refuted_list_of_null.
+Print Assumptions C18_extensible_int_fixed.
 Print Assumptions C18_schema_valid_partial.
 Print Assumptions C18_refuted_set_order.
 Print Assumptions C18_refuted_nested_list_proto.
